@@ -18,4 +18,4 @@ Extraction "io_model.ml"
   wf_jaspar wf_jaspar16 wf_prefix wf_suffix
   dec_value record_of matrix_of
   outcome_eqb outcomes_eqb check_c14 check_c15 no_panic stop_prefix
-  N.eqb Z.eqb.
+  N.eqb Z.eqb F32.of_bits F32.to_bits F32.zero.
